@@ -12,6 +12,7 @@ import (
 	"os"
 	"os/exec"
 	"path/filepath"
+	"runtime/debug"
 	"strconv"
 	"strings"
 	"sync"
@@ -351,11 +352,12 @@ type GnoResult struct {
 	Out      string
 	Rejected string // preprocess / parse error (program not accepted)
 	Panic    string // unhandled Gno panic
+	Crash    string // Go-level panic inside the VM (not one of its reporting types)
 }
 
 // runGno parses, preprocesses and runs src (package main) on a fresh machine
 // over a dropped transaction fork. A Go panic of the VM that is not one of
-// its reporting types propagates to the caller.
+// its reporting types is returned as Crash (with the stack).
 func runGno(src string) (res GnoResult) {
 	gnoWarm()
 	gnoMu.Lock()
@@ -377,11 +379,7 @@ func runGno(src string) (res GnoResult) {
 			case *gno.TypedValue:
 				res.Panic = v.Sprint(m)
 			default:
-				if ran, ok := r.(error); ok && strings.Contains(fmt.Sprintf("%T", r), "scanner") {
-					res.Rejected = ran.Error()
-					return
-				}
-				panic(r)
+				res.Crash = fmt.Sprintf("%v\n%s", r, debug.Stack())
 			}
 		}
 	}()
